@@ -37,7 +37,7 @@ Section ScanC.
       set (h := hist tr) in *.
       set (h1 := mkH (S (hlen h)) (slotv h) (lastw h) (att h) (linked h) (scan h) (freeh h) (flbad h)).
       assert (J1 : JA c g a h1).
-      { eapply JA_quiet; [apply piA_refl| | | |exact J]; [unfold hA, h1; cbn; repeat split; auto|reflexivity|apply (ja_slot _ _ _ _ J)]. }
+      { eapply JA_quiet; [apply piA_refl| | | | |exact J]; [unfold hA, h1; cbn; repeat split; auto|reflexivity|reflexivity|apply (ja_slot _ _ _ _ J)]. }
       apply (JA_set_scan_gen c g a h1 t (Some ss) (fupd Nat.eqb (scan h) t (Some (hlen h))) J1).
       + intros t' N. unfold fupd, h1. cbn [scan]. destruct (Nat.eqb_spec t' t); [contradiction|reflexivity].
       + split; [unfold fupd; now rewrite Nat.eqb_refl|]. unfold scan_ok, ss. cbn. repeat split; auto; try (intros s w []).
@@ -56,7 +56,7 @@ Section ScanC.
       set (h := hist tr) in *.
       set (h1 := mkH (S (hlen h)) (slotv h) (lastw h) (att h) (linked h) (scan h) (freeh h) (flbad h)).
       assert (J1 : JA c g a h1).
-      { eapply JA_quiet; [apply piA_refl| | | |exact J]; [unfold hA, h1; cbn; repeat split; auto|reflexivity|apply (ja_slot _ _ _ _ J)]. }
+      { eapply JA_quiet; [apply piA_refl| | | | |exact J]; [unfold hA, h1; cbn; repeat split; auto|reflexivity|reflexivity|apply (ja_slot _ _ _ _ J)]. }
       apply (JA_set_scan_gen c g a h1 t None (fupd Nat.eqb (scan h) t None) J1).
       + intros t' N. unfold fupd, h1. cbn [scan]. destruct (Nat.eqb_spec t' t); [contradiction|reflexivity].
       + unfold fupd. now rewrite Nat.eqb_refl.
@@ -130,7 +130,7 @@ Section ScanC.
     pose proof (ja_scan _ _ _ _ J t) as K. unfold viewA in Hv. rewrite Hv, Hs in K. destruct K as (K1 & K2).
     split.
     - rewrite hist_app. pose proof (hQ_disposes t freed (hist tr)) as Hh.
-      eapply JA_quiet; [apply piA_refl|apply hQ_hA; exact Hh|apply hQ_scan; exact Hh| |exact J].
+      eapply JA_quiet; [apply piA_refl|apply hQ_hA; exact Hh|apply hQ_scan; exact Hh|apply hQ_freeh; exact Hh| |exact J].
       intros s. destruct Hh as (B1 & _). rewrite B1. apply (ja_slot _ _ _ _ J).
     - apply ndwg_disposes; auto. intros p Hin Hnz s0 s Hsc G. rewrite K1 in Hsc. inversion Hsc; subst s0.
       apply (Hfr p Hin). eapply scan_end_guarded; eauto.
